@@ -1,6 +1,7 @@
 """C11 - publish/connect and share subscribe the source once and multicast."""
 import itertools
 from common import *
+import ileave2
 
 COLD = ["(cold)", "(cold (n 1))", "(cold (n 1) (n 2) c)", "(cold (n 1) (e 3))", "(cold c)", "(cold (n 1) c (n 2))"]
 
@@ -50,7 +51,7 @@ def run(tier, seed, replay=None):
     proof_stage(rep, "C11")
     if not build_stage(rep):
         return rep.finish()
-    cases = load_replay_case(replay) if replay else histories(tier, rng)
+    cases = load_replay_case(replay) if replay else histories(tier, rng) + ileave2.cases(tier, rng, kinds=("share",))
     correspond(rep, "C11", cases, "C11_source_subscribed_at_most_once / C11_not_before_connect / C11_multicast / C11_released_after_last_leaver")
     c = rep.coverage
     hist = {}
@@ -65,5 +66,7 @@ def run(tier, seed, replay=None):
                  "the source is subscribed, every item passing the tap, every delivery per subscriber, every is_closed answer, with a marker after each "
                  "operation; specification = the ideal machine (the source is let go when the last subscriber leaves), model = the code as it is; a case "
                  "where the implementation follows the model and not the specification is the recorded finding" % (5 if tier == "quick" else 6))
-    rep.assumptions = ["share placed after side-effecting upstream operators is represented by the tap", "single-threaded histories"]
+    c["rule"] += "; share_threads with subscribers joining and leaving from two or three real threads while the source emits: " + ileave2.RULE
+    rep.assumptions = ["share placed after side-effecting upstream operators is represented by the tap",
+                       "the thread interleavings of share_threads are judged by predicates only (connected at most once, per-subscriber order), not compared with a model"]
     return rep.finish()
